@@ -72,6 +72,9 @@ func (e *Exec) call(fr *Frame, st *State, x *ssa.Call) (Value, bool) {
 		return e.inline(fr, st, x, callee)
 	}
 	// opaque call
+	for _, a := range c.Args {
+		e.exactUse(fr, st, a, "arg")
+	}
 	e.argsEscape(fr, st, c)
 	e.havoc(st, e.P.ModSetOf(callee))
 	e.bumpAlloc(st)
@@ -187,6 +190,11 @@ func (e *Exec) inline(fr *Frame, st *State, x *ssa.Call, callee *ssa.Function) (
 		path: fr.path + seg + ">"}
 	for i, p := range callee.Params {
 		nf.vals[p] = e.val(fr, x.Call.Args[i])
+		if e.Opt.Exact {
+			if ex := e.exOf(fr, x.Call.Args[i], nil); ex != nil {
+				e.setExact(nf, p, ex)
+			}
+		}
 	}
 	out, res := e.execFunc(nf, st.clone())
 	if out == nil {
